@@ -143,6 +143,8 @@ def simple_events(ctx: Ctx):
                       why_bad=f"{len(reps)} reports: {[flow.dump(e.call)[:100] for e in reps]}", construct="pick_up_trip:event")
         elif reps:
             ctx.violation("D1", "EV.pickup", "pick_up_trip: no event without the pickup", fn, p.end, why="report on a non-removing path", construct="pick_up_trip:event-without-removal")
+    # the except path of that try continues silently: nothing the report constructor does may raise on admitted input
+    rules.rule_swallowed_regions(ctx, "D1")
     # dropoff
     fn = repo.func(SOPS, "drop_off_trip")
     sim, env, vid, req = fn.params[:4]
